@@ -792,6 +792,8 @@ def network(profile="exact", max_ops=6, dtypes=("int8", "int8", "int8", "uint8",
             n_ops = draw(st.integers(1, max_ops))
             approx_tail = draw(st.sampled_from(["avgpool_same", "logistic", "tanh", "hswish", "lrelu", "mean", "resize_nearest", "avgpool_same", "tanh", "tconv", "tconv", "resize_bilinear",
                                                     "exp", "log", "sqrt", "rsqrt", "gelu", "prelu", "prelu", "abs", "sqdiff", "softmax", "softmax"]))
+            if dt == "int16":  # the 16-bit approximate-class operators the value oracle can execute
+                approx_tail = draw(st.sampled_from(["exp", "log", "sqrt", "gelu", "resize_bilinear", "resize_bilinear", "resize_bilinear", "resize_nearest", "lrelu", "abs"]))
             if os.environ.get("VERIF_FORCE_TAIL"):  # exploration aid (never set by a registered command): concentrate a run on one tail operator
                 approx_tail = os.environ["VERIF_FORCE_TAIL"]
         if profile == "exact16":  # exact-class operators whose 16-bit reference is pinned down (no ADD/SUB: their int16 reference depends on the pot_scale option)
@@ -844,7 +846,7 @@ def network(profile="exact", max_ops=6, dtypes=("int8", "int8", "int8", "uint8",
                 kind = draw(st.sampled_from(["fc", "add_const", "reshape", "relu", "mul_const"]))
             if len(X["shape"]) == 0 and kind not in ("relu", "relu6", "quantize"):
                 kind = "relu"  # a scalar (everything reduced away): only element-wise operators apply
-            if X["dtype"] == "int16" and kind in ("avgpool_same", "resize_bilinear", "hswish", "tconv", "mean", "softmax", "logistic", "tanh"):
+            if X["dtype"] == "int16" and kind in ("avgpool_same", "hswish", "tconv", "mean", "softmax", "logistic", "tanh"):
                 kind = "relu"
             if int(math.prod(X["shape"])) > 200000:
                 kind = draw(st.sampled_from(["maxpool", "relu"])) if r4 else "relu"
